@@ -358,6 +358,12 @@ impl TransformerContext {
 
     pub fn set_config(&mut self, config: TransformConfig) {
         self.seed_rng(config.seed);
+        self.update_config(config);
+    }
+
+    /// Change settings in the middle of a document: the random sequence carries on
+    /// (a new `seed` is for the caller to apply with `seed_rng()`).
+    pub fn update_config(&mut self, config: TransformConfig) {
         if config.use_local_styles {
             // randomise the local id to avoid conflicts with other SVG
             // elements in the same (e.g. HTML) document.
